@@ -9,7 +9,7 @@ import random
 from supervisor.states import RUNNING_STATES
 
 from vsim import gen
-from vsim.cluster import TICK, views, groups, vt, ident
+from vsim.cluster import TICK, views, groups, vt, ident, peek
 from vsim.sim import World, Runaway, Livelock
 
 BEHAVIOURS = ['normal'] * 6 + ['slow_stop', 'stubborn', 'crash_early', 'backoff_then_run', 'exit_expected',
@@ -91,6 +91,7 @@ class Run:
         self.case = case
         self.rng = random.Random(case['seed'])
         self.knobs = knobs
+        self.runtime_disabled = {}   # (nick, program) -> (time, disabled) for programs disabled / enabled at run time
         self.scenario = make_scenario(self.rng, knobs)
         self.model = self.scenario['model']
         self.procs = gen.model_processes(self.model)
@@ -193,6 +194,54 @@ class Run:
                 w.crash_instance(victim)
                 w.at(w.now + rec['down'], w.start_instance, victim)
                 self.reboot_until = max(getattr(self, 'reboot_until', 0.0), w.now + rec['down'])
+        elif kind == 'disable_during_join':
+            # an instance Y restarts; while it still has a peer X in CHECKED (handshake done, not activated yet) and X
+            # is in OPERATION, a program is disabled on X: the event reaches Y about a peer that is not RUNNING yet
+            if len(live) > 1:
+                master = self.master()
+                y = rng.choice([n for n in live if n != master] or live)
+                rec['on'] = y
+                w.crash_instance(y)
+                w.at(w.now + rng.uniform(0.5, 6.0), w.start_instance, y)
+                deadline = w.now + 60.0
+                done = False
+                while w.now < deadline and not done:
+                    w.run_for(0.05)
+                    yi = w.instances.get(y)
+                    if yi is None or not yi.alive or not yi.http_open or yi.sd.options.mood < 1:
+                        continue
+                    for x in [n for n in live if n != y and w.instances[n].alive]:
+                        try:
+                            seen = peek(w, y, 'supvisors.get_instance_info', ident(w, x))[0]['statename']
+                            xstate = peek(w, x, 'supvisors.get_supvisors_state')['fsm_statename']
+                            # X publishes its events to Y once it has admitted it
+                            back = peek(w, x, 'supvisors.get_instance_info', ident(w, y))[0]['statename']
+                        except Exception:
+                            continue
+                        if back not in ('CHECKED', 'RUNNING'):
+                            continue
+                        progs = sorted({p for g in w.spec_of(x)['groups'].values() for p in g} -
+                                       set(w.spec_of(x).get('disabled') or []))
+                        if seen == 'CHECKED' and xstate == 'OPERATION' and progs:
+                            prog = rng.choice(progs)
+                            rec['res'] = w.user_rpc(x, 'supvisors.disable', prog, False)
+                            rec['disabled'] = (x, prog)
+                            if rec['res'][0] == 'ok':
+                                self.runtime_disabled[(x, prog)] = (w.now, True)
+                                self.count('programs_disabled_on_a_peer_seen_checked')
+                            done = True
+                            break
+                self.reboot_until = max(getattr(self, 'reboot_until', 0.0), w.now + 5.0)
+        elif kind == 'start_disabled_program':
+            # the instance that re-joined is asked to start the program that was disabled meanwhile on its peer
+            last = next((a for a in reversed(self.actions) if a.get('disabled')), None)
+            if last and w.instances[last['on']].alive and w.instances[last['on']].http_open:
+                x, prog = last['disabled']
+                names = [ns for ns, (a, p) in self.procs.items() if p == prog]
+                if names:
+                    rec['on'] = last['on']
+                    rec['args'] = (rng.choice(strategies), rng.choice(names), '', False)
+                    rec['res'] = w.user_rpc(last['on'], 'supvisors.start_process', *rec['args'])
         elif kind == 'dup':
             rec['res'] = self.duplicate_some_process()
         elif kind == 'dup_unmanaged':
@@ -320,6 +369,10 @@ class Run:
                 w.run_until(self.reboot_until + 1.0)
             # quiet period: until quiescence with OPERATION everywhere, bounded
             self.outcome['settled'] = self.wait_operation(knobs.get('settle_ticks', 80))
+            for kind in knobs.get('after_settling', ()):
+                self.do_action(kind)
+                w.run_for(4 * TICK)
+                self.outcome['settled'] = self.wait_operation(knobs.get('settle_ticks', 80))
             w.run_for(2 * TICK)
             self.outcome['quiescent'] = w.quiescent()
             self.outcome['views'] = views(w)
